@@ -215,8 +215,8 @@ def run(pid, tier):
         return c, lib.tlc('MCHeap', c[0], workers=4, timeout=600 if quick else 900, xmx='4g')
     def sim():
         return (('MCHeap_sim.cfg', 'sizes 12..16 x cap 4, two codes, random histories of 40 operations'),
-                lib.tlc('MCHeap', 'MCHeap_sim.cfg', workers=4, timeout=600, simulate=600, depth=40, xmx='2g'))
-    ex = concurrent.futures.ThreadPoolExecutor(max_workers=2)
+                lib.tlc('MCHeap', 'MCHeap_sim.cfg', workers=4, timeout=600, simulate=250, depth=40, xmx='2g'))
+    ex = concurrent.futures.ThreadPoolExecutor(max_workers=2 if quick else 3)
     futs = [ex.submit(mc, c) for c in mcs] + ([] if quick else [ex.submit(sim)])
     # ---- X (runs while the model checker works)
     pairs = QUICK_X + (QUICK_X_EXTRA if quick else THOROUGH_X_EXTRA)
@@ -267,6 +267,10 @@ def run(pid, tier):
     flush(True)
     for fu in futs:
         c, r = fu.result()
+        if 'sim' in c[0]:
+            import re
+            chk = re.findall(r'(\d+) states checked', r.out)
+            r.generated = int(chk[-1]) if chk else 0
         rep.add_tlc(c[0][:-4], r, 'model checking of ScpiHeap layer (b) incl. refinement of layer (a): ' + c[1])
         model_states[c[0]] = r.distinct
         if r.violations:
